@@ -177,6 +177,15 @@ func (a *Agents) cookieFor(mode string, bid, fi int) (string, bool) {
 			return "", false
 		}
 		return of.Spec.CookieName() + "=" + sid + "; " + name + "=" + sid, true
+	case strings.HasPrefix(mode, "foreign-first:"):
+		// another browser's session id under a NEAR-MISS name placed in front of this browser's real cookie
+		o, _ := strconv.Atoi(mode[14:])
+		other := a.sidOf(a.B(o), f)
+		own := a.sidOf(b, f)
+		if other == "" || own == "" {
+			return "", false
+		}
+		return "x" + name + "=" + other + "; " + name + "=" + own, true
 	case strings.HasPrefix(mode, "name-variant:"):
 		// the browser's own live session id under a NEAR-MISS of this filter's cookie name
 		sid := a.sidOf(b, f)
